@@ -1,6 +1,8 @@
 (* Correspondence obligations for C20: the model's output on the cases the implementation ran.
    format_model: px.NewFormatContext3(value, spec) + px.ToString2  vs  format_value (text or error class)
    radix_model : the rendering of an integer and px.New(c, Integer, text, radix)  vs  format_value / int_new
+   radix_pad_model : the same for renderings under any flags, width and precision (padding spaces trimmed),
+                 through the positional and the named dispatch of the constructor  vs  int_ctor
    share_model : the same on values in which one container instance occurs at several positions
                  (aliasing), with the recursion guard of ToString2  vs  format_value_g; every such case
                  must also satisfy `lok []` (no cycle), the hypothesis of C20_sharing_invisible
@@ -61,6 +63,17 @@ Definition radix_check (c : rcase) : bool :=
   option_eqb obs_eqb (format_value no_oracle (VInt (r_n c)) (FStr (r_d c))) (Some (OText (r_text c)))
   && option_eqb Z.eqb (int_new (r_text c) (r_radix c)) (r_res c).
 Definition radix_mismatches (cs : list rcase) : list N := failing radix_check cs.
+
+(* a padded rendering (zero fill, precision fill, padding spaces), its padding spaces trimmed, through both
+   dispatches of the Integer constructor: positional (text, radix [, abs]) and named {from, radix [, abs]} *)
+Record pcase := mkPCase { p_n : Z; p_d : str; p_radix : Z; p_abs : option bool; p_text : str;
+                          p_pos : option Z; p_named : option Z }.
+
+Definition radix_pad_check (c : pcase) : bool :=
+  option_eqb obs_eqb (format_value no_oracle (VInt (p_n c)) (FStr (p_d c))) (Some (OText (p_text c)))
+  && option_eqb Z.eqb (int_ctor CPositional (trim_space (p_text c)) (p_radix c) (p_abs c)) (p_pos c)
+  && option_eqb Z.eqb (int_ctor CNamed (trim_space (p_text c)) (p_radix c) (p_abs c)) (p_named c).
+Definition radix_pad_mismatches (cs : list pcase) : list N := failing radix_pad_check cs.
 
 (* key tables *)
 Inductive kcase :=
